@@ -66,6 +66,16 @@ def check(R):
         b = F.bodies[SESSIONS + '::reserve_global_group_data_ctr']
         R.expect('P5', b.fn, 'reserve_global_group_data_ctr is #[must_use] and not public', b.rec.get('must_use') is True and b.rec.get('vis') != 'pub', 'must_use, crate-private',
                  f"must_use={b.rec.get('must_use')} vis={b.rec.get('vis')}")
+        # the reservation stamps ONE message: Session::pre_send consumes it (Option::take on the exchange's group_data_ctr) - a second
+        # send on the same exchange finds None and is refused instead of going out under the same counter value
+        ps_ = R.body('transport::session::Session::pre_send')
+        takes = [t for b_ in [ps_] + list(F.nested(ps_.fn)) for t in b_.calls('core::option::Option::take')
+                 if any(f == 'group_data_ctr:transport::exchange::ExchangeState' for f in src_fields(prims.sources(b_, t.d['a'][0])))]
+        reads = [b_.fn for b_ in [ps_] + list(F.nested(ps_.fn)) if prims.field_read_locals(b_, 'group_data_ctr:transport::exchange::ExchangeState')
+                 or any(st[1].get('op') == 'ref' and any(x == '.group_data_ctr:transport::exchange::ExchangeState' for x in st[1]['pl'][1:] if isinstance(x, str)) for i, j, st in b_.stmts())]
+        R.expect('P10', ps_.fn, 'the reserved group data counter is consumed when it is stamped (Option::take), so it stamps one message only', len(takes) >= 1 and len(takes) >= len(set(reads)),
+                 f'{len(takes)} take() on ExchangeState.group_data_ctr', f'ExchangeState.group_data_ctr is read in {sorted(set(reads))} with {len(takes)} take(): the reservation stays on the exchange and '
+                 'every further message of that exchange repeats the counter value (and the nonce)')
         R.writers_confined('P1', 'group_data_ctr:transport::exchange::ExchangeState', {EX + '::initiate_group', 'transport::session::Session::add_exch', 'transport::exchange::ExchangeState::new'}, min_sites=1)
         readers = set()
         for bb_ in F.bodies.values():
@@ -184,6 +194,12 @@ def check(R):
         bad = prims.always_followed_by(ac, [e[1] for e in se], stc)
         R.expect('P3', ac.fn, 'every boundary the check-in counter returns is stored', bool(se) and not bad, 'Some(v) -> kv.store', 'a Some(v) path skips the store')
         result_used(R, 'P8', ac, ('persist::KvBlobStore::store',))
+        # the application-driven store (after load_counter / invalidate_counter) is unconditional: "the store already holds a later value"
+        # is not decidable by an integer comparison across the 32-bit wrap, and skipping it leaves the old boundary on flash
+        pc = R.body('dm::clusters::icd_mgmt::Icd::persist_counter')
+        pst = call_bbs(pc, 'persist::KvBlobStore::store')
+        miss = prims.precedes(pc, pst, ok_return_bbs(pc) + [bb for bb, k, pl_ in prims.result_defs(pc) if k == 'call' and pl_.get('f', '').endswith('KvBlobStore::store')])
+        R.expect('P3', pc.fn, 'every successful persist_counter has written the boundary', not miss, 'kv.store precedes every Ok', f'Ok at {[pc.where(b) for b in miss]} without a store')
         CC = 'sc::checkin::CheckInCounter'
         ab = R.body(CC + '::advance_by')
         dist = named_local(ab, 'dist_to_boundary')
